@@ -410,6 +410,10 @@ DYNAMIC_TABLES = {
              "_peer_waiting_answer", "_app_waiting_answer", "_origin_waiting_answer",
              "_sent_answers"],
     "Application": ["_answer_waiting"],
+    # statistics: keys appear with the first command name / result-code range seen, on connection
+    # and application threads, while the I/O thread (statistics logging) and the statistics
+    # thread read them
+    "PeerStats": ["processed_req_time", "sent_result_code_range_counters"],
 }
 
 
